@@ -8,8 +8,8 @@ Inductive c06case :=
 | KeyCase (src : str) (tags : list str) (obs_key : str)
 | BucketCase (name key : str) (n : N) (obs : N)
 | SplitCase (dps : list datapoint) (n : nat) (obs_whole : list entry) (obs_shards : list (list entry))
-(* batches dispatched one after the other to n workers; obs = per worker, the dumps of the maps
-   its aggregator received, in order *)
+(* batches dispatched (back to back or concurrently, possibly against full queues) to n workers;
+   obs = per worker, the dumps of the maps its aggregator received, in any order *)
 | DispatchCase (batches : list (list datapoint)) (n : nat) (obs : list (list (list entry))).
 
 Fixpoint all2 {A B} (f : A -> B -> bool) (a : list A) (b : list B) : bool :=
@@ -36,10 +36,24 @@ Definition worker_feed (i : nat) (sps : list (list mmap)) : list mmap :=
 Definition batch_splits (batches : list (list datapoint)) (n : nat) : list (list mmap) :=
   map (λ b, split_c n (receive_all empty_map b)) batches.
 
+(* multiset comparison: every observed dump matches a distinct expected map, none is left over
+   (a map delivered twice, or not at all, fails) *)
+Fixpoint remove_match (o : list entry) (exp : list mmap) : option (list mmap) :=
+  match exp with
+  | [] => None
+  | m :: r => if dump_matches o m then Some r
+              else match remove_match o r with Some r' => Some (m :: r') | None => None end
+  end.
+Fixpoint match_multiset (obs : list (list entry)) (exp : list mmap) : bool :=
+  match obs with
+  | [] => is_nil exp
+  | o :: r => match remove_match o exp with Some e' => match_multiset r e' | None => false end
+  end.
+
 Definition check_dispatch (batches : list (list datapoint)) (n : nat) (obs : list (list (list entry))) : bool :=
   let sps := batch_splits batches n in
   (length obs =? n)%nat &&
-  all2 (λ i o, all2 dump_matches (List.filter (λ es, negb (is_nil es)) o) (worker_feed i sps)) (seq 0 n) obs.
+  all2 (λ i o, match_multiset (List.filter (λ es, negb (is_nil es)) o) (worker_feed i sps)) (seq 0 n) obs.
 
 Definition check_case (c : c06case) : bool :=
   match c with
